@@ -6,5 +6,6 @@ for d in "$V"/seeded/C*; do
   id=$(basename "$d")
   prop=${id%%-*}
   echo "=== $id"
+  if grep -q '"retired"' "$d/meta.json" 2>/dev/null; then echo "retired (see meta.json)"; continue; fi
   "$V/tools/seed_matrix.sh" "$id" "$prop" | tail -1
 done
